@@ -487,6 +487,10 @@ def mon_C02(case):
         w = o.split(" ")
         if w[0] in ("restart",):
             lastseq = {}
+        if ln.plain is None:
+            # a peer-to-peer topic which was deleted for good: the same two users may start a new one under the same name, numbered from 1
+            for key in [k for k in lastseq if k[1].startswith("P:") and k[1] not in ln.store]:
+                del lastseq[key]
         if w[0] != "pub" or ln.plain is not None or len(w) < 4:
             # no data frame may appear outside a publish or a history query
             if ln.plain is None and w[0] not in ("get", "sub"):
@@ -556,6 +560,13 @@ def mon_C02(case):
         # push
         want_push = sorted(u for u, p in c["users"].items() if not p["deleted"] and has(eff(p["want"], p["given"]), "R")
                            and has(eff(p["want"], p["given"]), "P") and u != "-" and not p.get("chan"))
+        # (a subscriber the store holds - an invitation which was acknowledged - but whom the topic still counts as gone is a subscriber)
+        srow = pre.store.get(t, {}).get("subs", {}) if pre else {}
+        for u, p in c["users"].items():
+            sr = srow.get(u)
+            if p["deleted"] and sr is not None and not sr["deleted"] and u not in want_push and not p.get("chan") \
+                    and has(eff(sr["want"], sr["given"]), "R") and has(eff(sr["want"], sr["given"]), "P"):
+                want_push = sorted(want_push + [u])
         pushes = [p for p in ln.pushes if p.get("what") == "msg"]
         if len(pushes) > 1:
             out.append((i, f"C02 {len(pushes)} push notifications for one message"))
@@ -942,14 +953,15 @@ def _c08_same_answer(case):
                 pre = prev_state(case, i)
                 ans = [f for sid, f in ln.frames if sid == w[1] and f.startswith("meta ") and " desc[" in f]
                 on_topic = pre is not None and _attached_to(case, pre, w[1], w[2])
+                spelled = (w[1], w[2], i in case.via_chn)       # (the answer names the topic as it was addressed: `grp…` or `chn…`)
                 if len(ans) == 1 and on_topic:
-                    prev = asked.get((w[1], w[2]))
+                    prev = asked.get(spelled)
                     if prev is not None and prev[1] != ans[0]:
                         out.append((i, f"C08 [same-answer] {w[1]} asked for the description of {w[2]} at line {prev[0]} and again now, nothing "
                                        f"but leaving, attaching, idling out and restarting in between: `{prev[1]}` then `{ans[0]}`"))
-                    asked[(w[1], w[2])] = (i, ans[0])
+                    asked[spelled] = (i, ans[0])
                 else:
-                    asked.pop((w[1], w[2]), None)
+                    asked.pop(spelled, None)
             continue
         if w[0] in ("unload", "restart"):
             continue
@@ -1687,6 +1699,11 @@ def mon_C14(case):
         if ln.plain is not None:
             continue
         if ln.held is None:
+            # "request bookkeeping never blocks … a topic forever": a topic is suspended only while something is being done to it
+            for t, c in sorted(ln.cache.items()):
+                if c["inactive"]:
+                    out.append((i, f"C14 [stuck-paused] after `{w[0]}` nothing is queued anywhere but {t} is still suspended: every request to it is "
+                                   f"refused with 503, its sessions can neither leave nor be cleaned up, it never unloads"))
             for sid in sorted(ln.inflight):
                 out.append((i, f"C14 [stuck-inflight] after `{w[0]}` nothing is queued anywhere but session {sid} still has a request in flight: its next "
                                f"{{sub}} or {{leave}} and its cleanup wait for ever"))
